@@ -86,6 +86,7 @@ void noteProgress();
 
 // Fault injection: the next pthread_create call made by the calling thread fails with EAGAIN (resource exhaustion).
 void failNextCreate();
+void cancelFailNextCreate();             // disarm (the armed call did not create a thread)
 uint64_t createFailuresInjected();
 
 // CPU affinity of the whole process: n = number of CPUs to use (0 = all)
